@@ -52,6 +52,8 @@ class Engine:
         self.notes = []
         self.known = {}
         self._keep = []
+        self.floor_args = {}
+        self.floor_memo = {}
 
     # ---------------------------------------------------------------- solver access
     def check(self, *extra):
